@@ -20,7 +20,7 @@ import gemdat.trajectory as gtraj  # noqa: E402
 from gemdat import Trajectory  # noqa: E402
 
 PID = 'C16'
-MODULES = ['GProofs.C16']
+MODULES = ['GProofs.C16', 'GProofs.C16Names']
 
 
 def traj_sig(tr):
@@ -340,6 +340,34 @@ def check_sibling_sources(out: Outcome, kind, rng, root):
                              expected='the trajectory parsed from this very file', observed=(got[1] if got[0] != 'ok' else 'another trajectory'),
                              note=f'cache files in the directory: {sorted(p.name for p in shared.iterdir() if p.name.endswith(".cache"))}')
                     return
+        # the default cache files now in the directory are the ones GModel.CacheName.cacheName names (driver op cachename): file name
+        # minus its LAST suffix, template components, an 8-hex hash, 'cache' — exactly one per source file
+        import re
+        caches = sorted(p.name for p in shared.iterdir() if p.name.endswith('.cache'))
+        tmpl = ['xml'] if kind == 'vasprun' else ['xyz']
+        unexplained = set(caches)
+        for tag, kw, ref in runs:
+            if ref[0] != 'ok':
+                continue
+            src = Path(kw['xml_file' if kind == 'vasprun' else 'coords_file']).name
+            comps = src.split('.')
+            mine = []
+            for c in caches:
+                hm = re.search(r'\.([0-9a-f]{8})\.cache$', c)
+                if not hm:
+                    continue
+                want = core.drive1(f'cachename {len(comps)} {" ".join(comps)} {len(tmpl)} {" ".join(tmpl)} {hm.group(1)}').split()[1]
+                if want == c:
+                    mine.append(c)
+            unexplained -= set(mine)
+            if not mine:
+                out.fail('correspondence', 'model-cache-name', {'kind': kind, 'source': src, 'cache_files': caches}, expected='a file named <name minus last suffix>.' + '.'.join(tmpl) + '.<8 hex>.cache',
+                         observed=caches)
+                return
+        if len(caches) != len([r for r in runs if r[2][0] == 'ok']):
+            out.fail('property', 'distinct-default-cache-files', {'kind': kind, 'sources': [Path(k['xml_file' if kind == 'vasprun' else 'coords_file']).name for _, k, _ in runs], 'cache_files': caches},
+                     expected='one default cache file per source file', observed=caches)
+            return
         out.count(f'sibling-sources-{kind}')
     finally:
         shutil.rmtree(shared, ignore_errors=True)
@@ -379,7 +407,7 @@ SPEC = PropertySpec(
     modules=MODULES,
     run=run,
     replay=replay,
-    gen=translate.gen_for('CacheKeys'),
+    gen=translate.gen_for('CacheKeys', 'CacheNames'),
     rule=('real from_lammps (generated xyz + LAMMPS data file), from_vasprun (generated minimal vasprun.xml) and from_gromacs '
           '(MDAnalysis.Universe stubbed) in scratch directories, once with source coordinates inside the box and once with atoms that left it (unwrapped): parsed positions '
           '= source coordinates modulo the cell; reference = load with no cache present, per argument variant; '
